@@ -55,6 +55,14 @@ def handle (op : String) (j : Json) : R Json := do
         bs.foldl (fun acc b => acc + b.cw * (b.state.getD r 0 * (b.state.getD c 0).conj)) (0 : CFloat)))
       return Json.mkObj [("branches", Json.arr branches.toArray), ("rho", jList (jList Driver.C01.jC) rho)]
     return Json.mkObj [("branches", Json.arr branches.toArray)]
+  | "dm" =>
+    -- density-matrix evolution Σ K ρ K† (polynomial; no measurement records)
+    let shape ← listF asNat j "shape"
+    let rho ← listF Driver.C01.pC j "rho"
+    let ops ← listF pOp j "ops"
+    let out := runDM CFloat.conj shape rho.toArray ops
+    let n := shapeSize shape
+    return Json.mkObj [("rho", jList (fun r => jList (fun c => Driver.C01.jC (out.getD (r * n + c) 0)) (List.range n)) (List.range n))]
   | _ => throw s!"unknown op {op}"
 
 end Driver.C02
